@@ -6,6 +6,8 @@ import (
 	"path/filepath"
 	"strings"
 
+	"golang.org/x/tools/go/ssa"
+
 	"osmolint/internal/analyses"
 	"osmolint/internal/ir"
 	"osmolint/internal/load"
@@ -25,6 +27,8 @@ func checkerDir() string {
 // must report on the Bad… function. A rule kind that stops firing (or starts firing on the good example) makes the
 // check broken. Returns the failures.
 func selfTest(dump bool, specs []string) []string {
+	ir.ExtraNew = func(fn *ssa.Function) bool { return strings.HasPrefix(fn.Name(), "helperNew") }
+	defer func() { ir.ExtraNew = nil }()
 	P, err := load.LoadFixture(checkerDir())
 	if err != nil {
 		return []string{"fixtures do not load: " + err.Error()}
@@ -116,6 +120,18 @@ func selfTest(dump bool, specs []string) []string {
 	pair("StoresOnlyFields", "Pool.GoodReweigh", "Pool.BadReweigh", func(c *rules.Ctx, fn string) { c.StoresOnlyFields(fn, "Asset", []string{"Weight"}, "only weights") })
 	pair("ReturnOnlyUnder", "GoodEmpty", "BadEmpty", func(c *rules.Ctx, fn string) {
 		c.ReturnOnlyUnder(fn, 0, "eq(gross,0)", "true", "empty only without gross")
+	})
+
+	// the same rules through helpers that are not in the function inventory (virtual inlining)
+	pair("FailsWhen/helper", "GoodGuardViaHelper", "BadGuardViaHelper", func(c *rules.Ctx, fn string) {
+		c.FailsWhen(fn, "ne(owner,sender)", "only the owner", rules.GuardOpt{Before: "fx.pay"})
+	})
+	pair("CallArg/helper", "GoodPairedViaHelper", "BadArgViaHelper", func(c *rules.Ctx, fn string) { c.CallArg(fn, "fx.pay", 1, "amt", "pays the amount") })
+	pair("HasCall/helper", "GoodPairedViaHelper", "", func(c *rules.Ctx, fn string) {
+		c.HasCall(fn, "fx.book", []string{"amt"}, true, "booked on success", "")
+	})
+	pair("CallArg/helper-value", "GoodValueViaHelper", "", func(c *rules.Ctx, fn string) {
+		c.CallArg(fn, "fx.pay", 0, "phi(owner, receiver)", "pays the receiver or, when none, the owner")
 	})
 
 	// scanners
